@@ -82,6 +82,7 @@ def check_artefact(ctx, a, stats, errs=None):
     worst_rel = 0.0
     worst_inner = 0.0
     closed_x = {}
+    ref = gu.ref_for(a)
 
     def V(what, reg, detail):
         detail.update(config=a.config["label"], region=reg["name"])
@@ -93,6 +94,7 @@ def check_artefact(ctx, a, stats, errs=None):
         nx = first["nx"]
         for k in range(2 * nx + 1):
             total = 0.0
+            total_allow = 0.0
             total_ok = True
             prev_last = None
             for gi, rid in enumerate(group):
@@ -101,6 +103,8 @@ def check_artefact(ctx, a, stats, errs=None):
                 A = reg["arrays"]
                 tr = a.trace[rid]
                 arc = tr["arc"][k]
+                Pk = trace.contour_points(reg, k)
+                allow = trace.curvature_allowance(tr["kappa"][k], nf, float(np.nansum(arc)))
                 hy = values_on_contour(A, "hy", k, ny)
                 pd = values_on_contour(A, "poloidal_distance", k, ny)
                 if np.any(~(hy > 0)):
@@ -113,7 +117,8 @@ def check_artefact(ctx, a, stats, errs=None):
                 rel = np.abs(got - want) / want
                 if ok.any():
                     worst_rel = max(worst_rel, float(np.nanmax(rel[ok])))
-                bad = ok & (rel > rtol)
+                tol_c = rtol + np.maximum(allow[0::2], allow[1::2])
+                bad = ok & (rel > tol_c)
                 for j in np.argwhere(bad).ravel():
                     j = int(j)
                     V("hy*dy differs from the arc length between the cell's y-faces%s | %s"
@@ -147,7 +152,8 @@ def check_artefact(ctx, a, stats, errs=None):
                     stats["hy_points"] += 1
                     r_ = abs(g - w) / w
                     worst_rel = max(worst_rel, r_)
-                    if r_ > rtol:
+                    al = max(allow[2 * j - 1] if j > 0 else 0.0, allow[2 * j] if j < ny else 0.0)
+                    if r_ > rtol + al:
                         V("hy*dy differs from the arc length between adjacent cell centres%s | %s%s"
                           % (" [end-point floor <3e-4 m]" if (j in (0, ny) and abs(g - w) <= 2 * END_FLOOR + rtol * w) else "",
                              loc_arrays(A, "hy", k)[3][0], " (region join)" if j in (0, ny) else ""),
@@ -160,7 +166,7 @@ def check_artefact(ctx, a, stats, errs=None):
                     m = int(np.argwhere(~(dpd > 0))[0][0])
                     V("poloidal_distance not strictly increasing along y", reg, dict(contour=k, m=m, values=pd[m:m + 2].tolist()))
                 err = np.abs(dpd - arc)
-                bad = ok & (err > rtol * arc + 1e-10)
+                bad = ok & (err > (rtol + allow) * arc + 1e-10)
                 for m in np.argwhere(bad).ravel():
                     m = int(m)
                     V("poloidal_distance increment differs from the arc length%s" % end_floor(reg, m, m, err[m], rtol * arc[m]), reg,
@@ -179,6 +185,7 @@ def check_artefact(ctx, a, stats, errs=None):
                           dict(contour=k, point=origin, value=float(pd[origin])))
                 if np.all(np.isfinite(arc)):
                     total += float(arc.sum())
+                    total_allow += float(np.sum(allow * arc))
                 else:
                     total_ok = False
             # circumference of closed surfaces (file variable at centre contours)
@@ -189,7 +196,7 @@ def check_artefact(ctx, a, stats, errs=None):
                 closed_x[x0 + i] = closed_x.get(x0 + i, False) or periodic
                 if periodic:
                     stats["closed_surfaces"] += 1
-                    if total_ok and not (abs(tpd - total) <= rtol * total):
+                    if total_ok and not (abs(tpd - total) <= rtol * total + total_allow):
                         floor_ok = abs(tpd - total) <= rtol * total + 2 * len(group) * END_FLOOR
                         V("total_poloidal_distance differs from the circumference%s" % (" [end-point floor]" if floor_ok else ""), first,
                           dict(contour=k, got=float(tpd), circumference=total, tol=rtol * total))
